@@ -386,6 +386,9 @@ class Eval:
 
     def t_method(self, t):
         _, recv_t, name, args, kwargs = t
+        if name in ("intersection", "union", "difference", "symmetric_difference") and len(args) == 1 and not kwargs:
+            # the named set operations are the operators & | - ^
+            return self.ev(("binop", {"intersection": "&", "union": "|", "difference": "-", "symmetric_difference": "^"}[name], recv_t, args[0]))
         x = self.ev(recv_t)
         if name == "copy":
             return x
